@@ -162,6 +162,24 @@ def check_object(d, ver, cname, tables, errs, path=''):
         check_value(v, props[pn], ver, f'{path}.{pn}', errs, tables)
     for c in COCONSTRAINTS.get((ver, tables[cname]['class']), []):
         c(d, errs, path)
+    if isinstance(d.get('granular_markings'), list):
+        valid = set(object_paths(d))
+        for gm in d['granular_markings']:
+            for sel in (gm.get('selectors') or []) if isinstance(gm, dict) else []:
+                if sel not in valid: errs.append(f'{path}.granular_markings: selector {sel!r} addresses nothing in the object')
+
+
+def object_paths(d, prefix=''):
+    """every property path of a JSON object in granular-marking selector syntax (independent enumerator: dictionaries by key, lists by .[i], nothing below a scalar)"""
+    for k, v in d.items():
+        if prefix == '' and k == 'granular_markings': continue
+        p = f'{prefix}{k}'
+        yield p
+        if isinstance(v, dict): yield from object_paths(v, p + '.')
+        elif isinstance(v, list):
+            for i, e in enumerate(v):
+                yield f'{p}.[{i}]'
+                if isinstance(e, dict): yield from object_paths(e, f'{p}.[{i}].')
 
 
 def _ts(s):
